@@ -326,6 +326,11 @@ def replay(path):
 
 def setup():
     ensure_tools()
+    # engine self-tests (scheduler, primitives, explorer): a broken engine must not go unnoticed
+    r = subprocess.run(["go", "test", "-count=1", "./vs"], cwd=os.path.join(VERIF, "engine"), env=GOENV, capture_output=True, text=True)
+    print("setup: engine self-tests:", r.stdout.strip().splitlines()[-1] if r.stdout.strip() else r.stderr[-300:], flush=True)
+    if r.returncode != 0:
+        infra("engine self-tests failed:\n" + (r.stdout + r.stderr)[-3000:])
     # pre-warm the build cache: compile every harness once (no run)
     enabled = set(open(os.path.join(VERIF, "harness", "ENABLED")).read().split())
     ids = sorted(os.path.basename(os.path.dirname(p)) for p in glob.glob(os.path.join(VERIF, "harness", "*", "check.json")))
